@@ -419,7 +419,30 @@ class C19(Spec):
         return progmatrix.run_matrix(groups, SCALARS, tier, jobs)
 
 
-_SPECS = {'C19': C19, 'C08': C08, 'C09': C09, 'C10': C10, 'C11': C11, 'C12': C12, 'C13': C13, 'C15': C15, 'C16': C16, 'C17': C17, 'C18': C18, 'C01': C01, 'C02': C02, 'C03': C03, 'C04': C04, 'C05': C05, 'C06': C06, 'C07': C07}
+class C14(Spec):
+    engine = 'E4-sched'
+    design_ref = 'DESIGN.md 4/C14'
+    technique = 'stateless preemption-bounded exploration of thread interleavings on the real code (baton scheduler over hooked static-initialisation guards, every execution in a forked child), with a vector-clock happens-before race detector fed by compiler-inserted access hooks'
+    level_text = ('2 real threads, every unordered pair of 22 const calls (12 of them touching lazily initialised statics: Identity, setIdentity, Zero, Generator, InnerWeights, adj, rjac, ljac, smallAdj, inner, isApprox): ALL schedules '
+                  '(the preemption bound is iterated until a larger bound adds no schedule); 3 threads on the static-touching triples with <= 2 (thorough 4) preemptions; thorough: 2-call programs per thread and 4 threads on Identity. '
+                  'Every execution runs in a fresh forked process (first use is real); oracle: no happens-before-unordered conflicting access, no deadlock, per-thread results bitwise equal to the single-thread reference')
+    rule = ('states = thread programs explored; transitions = complete schedules executed; non-trivial = programs with >= 2 threads; outcomes = distinct orders of completed static initialisations')
+    explanation = 'systematic concurrency testing (CHESS style) on the implementation; scheduling points = thread start/exit and __cxa_guard_acquire/release/abort; an acquire load of a guard byte that observes 1 is a happens-before edge, not a scheduling point (the byte goes 0->1 once)'
+    assumptions = ['the C++11 guard protocol is modelled by our own implementation of __cxa_guard_*', 'clang -fsanitize=thread instruments every non-stack memory access of the harness and of the (header-only) library',
+                   'weak-memory reorderings are not modelled beyond happens-before race freedom (race-free programs are sequentially consistent)', '2-4 threads, 1-2 calls per thread']
+    level_note = 'trusted: the scheduler/detector in engine/sched/sched.cpp and the compiler instrumentation'
+
+    def units(self, tier):
+        us = []
+        for g in ALL_GROUPS:
+            for s in (['double', 'float'] if g in ('SO2', 'SE3', 'R3') else ['double']):
+                name = '%s/%s' % (g, s)
+                us.append(Unit(name, 'checks/c14.cpp', defs=['VF_GROUP_TYPE=' + GROUPS[g].format(S=s), 'VF_UNIT="%s"' % name], build='ndebug', cxx='clang++',
+                               flags=['-fsanitize=thread'], link=['sched'], shards=(8 if tier == 'thorough' else 4), two_step=True))
+        return us
+
+
+_SPECS = {'C14': C14, 'C19': C19, 'C08': C08, 'C09': C09, 'C10': C10, 'C11': C11, 'C12': C12, 'C13': C13, 'C15': C15, 'C16': C16, 'C17': C17, 'C18': C18, 'C01': C01, 'C02': C02, 'C03': C03, 'C04': C04, 'C05': C05, 'C06': C06, 'C07': C07}
 
 
 def get(prop):
